@@ -268,11 +268,11 @@ fn eval_entry<C: Context<NumericTypes = DefaultNumericTypes>>(tree: &Node, ctx: 
         0 => cr(&tree.eval_with_context(ctx)),
         1 => render_result(&tree.eval_int_with_context(ctx)),
         2 => match tree.eval_float_with_context(ctx) {
-            Ok(f) => format!("Ok({:016x})", f.to_bits()),
+            Ok(f) => format!("Ok({})", cv(&Value::Float(f))),
             Err(e) => format!("Err({})", ce(&e)),
         },
         3 => match tree.eval_number_with_context(ctx) {
-            Ok(f) => format!("Ok({:016x})", f.to_bits()),
+            Ok(f) => format!("Ok({})", cv(&Value::Float(f))),
             Err(e) => format!("Err({})", ce(&e)),
         },
         4 => render_result(&tree.eval_boolean_with_context(ctx)),
@@ -314,8 +314,17 @@ fn run_script(ctx: &mut Ctx, sh: &Shared, programs: &[usize]) -> String {
     format!("{} => {}", out.join(" ; "), snapshot(ctx))
 }
 
-/// Executes one thread operation; the canonical rendering of everything it observed.
+/// Executes one thread operation; the canonical rendering of everything it observed. A panic of
+/// the library is rendered too (never-panics is C01's subject; here only the difference between
+/// the sequential and the concurrent execution counts).
 pub fn exec(op: &TOp, sh: &Shared) -> String {
+    match std::panic::catch_unwind(std::panic::AssertUnwindSafe(|| exec_inner(op, sh))) {
+        Ok(s) => s,
+        Err(_) => format!("PANIC: {}", verifsim::env::last_panic()),
+    }
+}
+
+fn exec_inner(op: &TOp, sh: &Shared) -> String {
     match op {
         TOp::EvalTree { tree, ctx, entry } => {
             let t = match sh.trees.get(*tree) {
@@ -564,14 +573,67 @@ fn gen_tree(rng: &mut Rng, setup: &Setup, deep: bool, with_assign: bool) -> Expr
     g.program()
 }
 
+/// Scenario for the Miri engine: the same kind of workload, small enough for an interpreter, run
+/// with plain `std::thread` (no hook installed, Miri's own seeded scheduler preempts anywhere).
+/// Returns the process exit code.
+pub fn miri_scenario(seed: u64) -> i32 {
+    let mut rng = Rng::new(seed);
+    let mut w = gen_workload_sized(&mut rng, true);
+    w.threads.truncate(3);
+    for t in w.threads.iter_mut() {
+        t.truncate(3);
+    }
+    let sh = match build_shared(&w) {
+        Ok(s) => Arc::new(s),
+        Err(e) => {
+            println!("miri-scenario: workload does not build: {}", e);
+            return 0;
+        },
+    };
+    let before = shared_fingerprint(&sh);
+    let expected = sequential(&w, &sh);
+    let mut results: Vec<Vec<String>> = Vec::new();
+    std::thread::scope(|scope| {
+        let mut handles = Vec::new();
+        for ops in w.threads.iter() {
+            let sh = sh.clone();
+            handles.push(scope.spawn(move || ops.iter().map(|o| exec(o, &sh)).collect::<Vec<String>>()));
+        }
+        for h in handles {
+            results.push(h.join().unwrap_or_else(|_| vec!["PANIC".to_string()]));
+        }
+    });
+    for t in 0..w.threads.len() {
+        for k in 0..expected[t].len() {
+            if results[t].get(k) != Some(&expected[t][k]) {
+                println!(
+                    "VIOLATION property=C15 class=concurrent!=sequential engine=miri workload_seed={} thread={} op={} expected={} actual={:?}",
+                    seed, t, k, expected[t][k], results[t].get(k)
+                );
+                return 1;
+            }
+        }
+    }
+    if shared_fingerprint(&sh) != before {
+        println!("VIOLATION property=C15 class=shared-object-changed engine=miri workload_seed={}", seed);
+        return 1;
+    }
+    println!("miri-scenario: ok workload_seed={} threads={} ops={}", seed, w.threads.len(), w.threads.iter().map(|t| t.len()).sum::<usize>());
+    0
+}
+
 pub fn gen_workload(rng: &mut Rng) -> Workload {
+    gen_workload_sized(rng, false)
+}
+
+pub fn gen_workload_sized(rng: &mut Rng, small: bool) -> Workload {
     let mut setup = gen_setup(rng);
     setup.fns = FN_NAMES.iter().map(|s| s.to_string()).collect();
-    let n_trees = rng.range(3, 6);
+    let n_trees = if small { 2 } else { rng.range(3, 6) };
     let mut trees = Vec::new();
     let mut assembled = Vec::new();
     for i in 0..n_trees {
-        let deep = i == 0 || rng.percent(30);
+        let deep = !small && (i == 0 || rng.percent(30));
         let with_assign = rng.percent(20);
         trees.push(gen_tree(rng, &setup, deep, with_assign));
         assembled.push(rng.percent(50));
@@ -580,7 +642,7 @@ pub fn gen_workload(rng: &mut Rng) -> Workload {
     for _ in 0..rng.range(2, 4) {
         let mut tries = 0;
         loop {
-            let deep = rng.percent(20);
+            let deep = !small && rng.percent(20);
             let t = gen_tree(rng, &setup, deep, false);
             tries += 1;
             if t.is_renderable() || tries > 8 {
@@ -591,7 +653,7 @@ pub fn gen_workload(rng: &mut Rng) -> Workload {
     }
     let mut scripts = Vec::new();
     for _ in 0..rng.range(2, 5) {
-        let deep = rng.percent(20);
+        let deep = !small && rng.percent(20);
         scripts.push(gen_tree(rng, &setup, deep, true));
     }
     let values: Vec<V> = (0..rng.range(1, 4)).map(|_| any_value(rng)).collect();
